@@ -289,6 +289,30 @@ def run_spellings(acc, cfg):
             if o[0] != "ok" or o[1] != want:
                 got = o[1] if o[0] == "ok" else o
                 acc.violation(["listing", api, "differs-from-same-dimension-units", cfg], {"cfg": cfg, "unit": u}, sorted(want), {"missing": sorted(want - got) if isinstance(got, set) else None, "extra": sorted(got - want) if isinstance(got, set) else got})
+    # listings restricted to a named group, interleaved with unrestricted ones: for every declared group and every
+    # dimension class it has a member in: unrestricted, restricted, unrestricted again, restricted to every OTHER group
+    # with a member in that class, unrestricted again — a listing is a question, it never changes a later answer
+    gnames = sorted(g for g in M.groups)
+    gm = {g: M.group_members(g) for g in gnames}
+    for g in gnames:
+        seen_dk = set()
+        for u in sorted(gm[g]):
+            if u not in M.units or not M.units[u].is_multiplicative or (not M.dim(u) and not M.root(u).units):
+                continue
+            dk = dimkey(M.dim(u))
+            if dk in seen_dk:
+                continue
+            seen_dk.add(dk)
+            same = {n for n in M.units if dimkey(M.dim(n)) == dk and not n.startswith("delta_")}
+            plan = [("root", same), (g, same & gm[g]), ("root", same)] + [(h, same & gm[h]) for h in gnames if h != g and same & gm[h]] + [("root", same), (None, same & sysmembers)]
+            for step, (grp, want) in enumerate(plan):
+                acc.ev()
+                acc.nt(("group-listing", cfg, g, u, step))
+                o = outcome_of(lambda: {next(iter(x._units)) for x in (ureg.get_compatible_units(u, grp) if grp else ureg.get_compatible_units(u))})
+                if o[0] != "ok" or o[1] != want:
+                    got = o[1] if o[0] == "ok" else o
+                    acc.violation(["listing", "get_compatible_units(u, group)", "differs-from-same-dimension-units" if step == 0 else "differs-from-same-dimension-units-after-earlier-listings", cfg], {"cfg": cfg, "unit": u, "group": grp, "earlier": [p[0] for p in plan[:step]]}, sorted(want), {"missing": sorted(want - got) if isinstance(got, set) else None, "extra": sorted(got - want) if isinstance(got, set) else got})
+                    break
     acc.sample({"clause": "spelling", "cfg": cfg, "strings": strings[100:104]})
 
 
@@ -800,3 +824,4 @@ def replay(rec):
 
 
 MANIFEST = {'category': 'exploration', 'technique': 'bounded exhaustive enumeration of unit pairs / spellings / compound containers / dimension specs against an independent definition-file reader (R1) — small-scope model checking of the compatibility relation', 'text': "All ordered pairs of the multiplicative canonical units of the bundled registry (~150k), every defined spelling alone and prefixed/pluralised, every ordered pair of 1-2 entry compound containers over a 7-unit alphabet with integer and half-integer exponents, all triples of a 40-container sub-alphabet (equivalence laws, closure under * / **), every declared dimension x exponent alphabet as a dimension spec through get_dimensionality / Quantity.check / ureg.check, compatible-unit listings of every unit, products, quotients and powers of QUANTITIES over the compound alphabet in a float registry and in an auto-reducing exact (Fraction) registry — the result must have the product of the dimension vectors and stay convertible to the plain product unit —, the predicates of ONE quantity object after every chain of <= 2 in-place operations (*=, /=, **=, ito_root/base/reduced_units, ito) against the units it then carries, a history clause (every ordered pair of the compound alphabet — thorough: of the canonical units too — converted twice in ONE registry, so that each pair is judged again after every other pair has warmed the registry's memos), and 54 generated registries with derived-dimension DAGs: each conversion must return a number exactly when R1's base-dimension vectors agree and raise DimensionalityError otherwise, and each predicate must equal that relation. thorough repeats everything for Fraction, Decimal, case-insensitive and auto_reduce_dimensions registries.", 'note': 'Trusted: R1 (mc/ref/defs.py, no pint imports; cross-checked against pint on the unchanged tree). Strings with several non-equivalent prefix readings are left to C08; offset/log units to C06; compounds with more than 2 (pairs) / 3 factors and units added after construction are outside the bound.', 'ref': 'DESIGN.md §4 C01'}
+MANIFEST["text"] += ' Listings restricted to a named group are interleaved with unrestricted ones (for every declared group and every dimension class it has a member in: unrestricted, restricted, unrestricted, restricted to every other group, unrestricted, default system): a listing never changes a later listing.'
